@@ -45,7 +45,7 @@ func isTLAValue(t types.Type) bool {
 func (g *VCGen) keyAbs(k types.Type) (string, func(string) string) {
 	if isTLAValue(k) {
 		g.ensureSpecFn("abs")
-		return "Val", func(t string) string { return "(abs " + t + ")" }
+		return "Val", func(t string) string { return "(sp.abs " + t + ")" }
 	}
 	return g.so.sortOf(k), func(t string) string { return t }
 }
